@@ -235,7 +235,7 @@ def main():
                 c.oblige("theorem " + t, False, "Cog.Props.C20 does not build on the regenerated tables")
 
     checker_cmd = "cd /verif/lean && lake build Cog.Props.C20 && lake env lean <#print axioms of the C20_* theorems>  (tables regenerated by /verif/.work/bin/xconfig)"
-    rule = ("documents generated from the regenerated key tables; the unknown key is injected at every mapping node of every document in turn; "
+    rule = ("documents generated from the regenerated loader key tables and, independently, from the published tables alone (also the fallback when the loader-side extractor refuses); the unknown key is injected at every mapping node of every document in turn; "
             "every (definition, key) of the loader tables and of the published tables probed in a minimal document; every rule-union member and the empty entries at every list position; "
             "non-trivial = any case other than an unmodified base document; distinct by (request, verdicts)")
     if hb is None or facts is None:
@@ -263,12 +263,14 @@ def main():
     # ---- correspondence + oracle
     quick = c.tier == "quick"
     plan = [("c20-keypaths", {}), ("c20-rules", {"seed": c.seed}), ("c20-syntax", {}),
+            ("c20-pubdocs", {"n": 60 if quick else 1200, "depth": 4 if quick else 6, "seed": c.seed}),
             ("c20-docs", {"n": 120 if quick else 2500, "depth": 4 if quick else 6, "seed": c.seed})]
     corpus = os.path.join(VERIF, "corpus", "C20.jsonl")
     if os.path.exists(corpus):
         plan.insert(0, ("c20-eval", {"in": corpus}))
     sh = shrinker(hb, hargs)
     reported = 0
+    weak_fails = []
     first_dis = None
     classes = collections.Counter()
     candidates = []
@@ -280,7 +282,8 @@ def main():
                 c.cov["streams"].setdefault(stream, {"evaluations": 0})["harness_stats"] = json.loads(r[1])
         model = model_eval([r[0] for r in rows]) if eval_ok else None
         dis = [(r, m) for r, m in zip(rows, model) if not same_reply(r[1], m)] if model else []
-        fails = [r for r in rows if r[2].startswith("FAIL")]
+        fails = [r for r in rows if r[2].startswith("FAIL ")]
+        weak_fails.extend((stream, kw, r) for r in rows if r[2].startswith("FAIL-WEAK"))
         nt = [r[0] + "|" + r[1] + "|" + r[2][:20] for r in rows if '"what":"base' not in r[3]]
         c.count(stream, len(rows), nt, samples=[{"stream": stream, "request": r[0][:300], "impl": r[1], "oracle": r[2][:200]} for r in rows[:: max(1, len(rows) // 2)][:2]])
         st = c.cov["streams"][stream]
@@ -292,7 +295,7 @@ def main():
         for r in rows:
             classes[json.loads(r[3])["what"] + "/" + json.loads(r[3])["class"]] += 1
         # second, independent validator of the published schemas
-        if stream in ("c20-keypaths", "c20-docs"):
+        if stream in ("c20-keypaths", "c20-docs", "c20-pubdocs"):
             sub = rows if quick or stream == "c20-keypaths" else rows[:: max(1, len(rows) // 20000)]
             vd, note = second_validator(sub, schema_of)
             st["python_jsonschema"] = note if vd is None else "%s, %d disagreements with santhosh-tekuri" % (note, len(vd))
@@ -308,7 +311,7 @@ def main():
                 if seen[cls]:
                     c.known_hit[seen[cls]] = c.known_hit.get(seen[cls], 0) + 1
                 continue
-            if stream == "c20-docs":
+            if stream in ("c20-docs", "c20-pubdocs"):
                 r = sh(r)
                 d = json.loads(r[3])
             text = r[0] + "\t" + r[2]
@@ -326,6 +329,21 @@ def main():
                 reported += 1
         if dis and first_dis is None:
             first_dis = (stream, kw, dis)
+    if weak_fails and not reported:
+        # no document with an unknown key was ACCEPTED; the only anomaly is that some are rejected
+        # without the key being named. Still a broken correspondence (the model says: key error).
+        seenw = set()
+        for stream, kw, r in weak_fails:
+            d = json.loads(r[3])
+            cls = d["file"] + "|" + d["what"] + "|" + d["class"]
+            if cls in seenw or c.match_known(r[0] + "\t" + r[2]):
+                continue
+            seenw.add(cls)
+            if reported < 3:
+                c.violation({"kind": "oracle-failure-weak", "stream": stream, "args": kw, "request": r[0], "impl": r[1], "oracle": r[2],
+                             "case": {k: d[k] for k in ("file", "what", "path", "key", "yaml")}, "loader_error": d["loader"], "schema_error": d["schema"]})
+                reported += 1
+    c.cov["weak_oracle_failures"] = len(weak_fails)
     if first_dis and not reported:
         # the model no longer describes the code and the oracle found no failing input
         stream, kw, dis = first_dis
